@@ -634,9 +634,12 @@ class unyt_array(np.ndarray):
             if dtype is None:
                 dtype = input_array.dtype
             obj = input_array.view(type=cls, dtype=dtype)
+            if registry is not None and input_units.registry is not registry:
+                # bind a unit object of our own: the one handed in may be shared
+                # (e.g. a unit of the unyt namespace or of another array)
+                input_units = input_units.copy()
+                input_units.registry = registry
             obj.units = input_units
-            if registry is not None:
-                obj.units.registry = registry
             obj.name = name
             return obj
         if isinstance(input_array, unyt_array):
